@@ -227,16 +227,38 @@ func dumpPathNodes(db ethdb.Iteratee) map[string][]byte {
 	for _, pfx := range [][]byte{rawdb.TrieNodeAccountPrefix, rawdb.TrieNodeStoragePrefix} {
 		it := db.NewIterator(pfx, nil)
 		for it.Next() {
-			k := it.Key()
-			if ok, _ := rawdb.ResolveAccountTrieNodeKey(k); ok {
-				out[string(k)] = append([]byte{}, it.Value()...)
-			} else if ok, _, _ := rawdb.ResolveStorageTrieNode(k); ok {
-				out[string(k)] = append([]byte{}, it.Value()...)
+			if isPathNodeKey(it.Key()) {
+				out[string(it.Key())] = append([]byte{}, it.Value()...)
 			}
 		}
 		it.Release()
 	}
 	return out
+}
+
+// isPathNodeKey recognises "A"+nibbles and "O"+owner+nibbles with up to 64
+// nibbles. (rawdb.ResolveAccountTrieNodeKey excludes 64-nibble paths because
+// keccak-keyed leaves never sit that deep; tries over chosen keys that differ in
+// the last nibble only do have such nodes and pathdb stores them.)
+func isPathNodeKey(key []byte) bool {
+	var path []byte
+	switch {
+	case len(key) >= 1 && key[0] == rawdb.TrieNodeAccountPrefix[0]:
+		path = key[1:]
+	case len(key) >= 1+common.HashLength && key[0] == rawdb.TrieNodeStoragePrefix[0]:
+		path = key[1+common.HashLength:]
+	default:
+		return false
+	}
+	if len(path) > 2*common.HashLength {
+		return false
+	}
+	for _, c := range path {
+		if c > 15 {
+			return false
+		}
+	}
+	return true
 }
 
 func pathKey(owner common.Hash, path []byte) string {
@@ -248,11 +270,11 @@ func pathKey(owner common.Hash, path []byte) string {
 
 func describePathKey(k string) string {
 	b := []byte(k)
-	if ok, p := rawdb.ResolveAccountTrieNodeKey(b); ok && len(b) > 0 && b[0] == rawdb.TrieNodeAccountPrefix[0] {
-		return fmt.Sprintf("account-trie path %x", p)
+	if len(b) > 0 && b[0] == rawdb.TrieNodeAccountPrefix[0] {
+		return fmt.Sprintf("account-trie path %x", b[1:])
 	}
-	if ok, o, p := rawdb.ResolveStorageTrieNode(b); ok {
-		return fmt.Sprintf("storage-trie owner %x.. path %x", o[:4], p)
+	if len(b) >= 1+common.HashLength && b[0] == rawdb.TrieNodeStoragePrefix[0] {
+		return fmt.Sprintf("storage-trie owner %x.. path %x", b[1:5], b[1+common.HashLength:])
 	}
 	return fmt.Sprintf("key %x", b)
 }
